@@ -69,7 +69,7 @@ ASSUMPTIONS = [
 # interactive body stop drawing, which Hypothesis reports as flaky data
 # generation when it re-uses a recorded prefix - the budget must never be
 # the binding limit for this module (examples is)
-BUDGET = {'quick': dict(examples=2400, max_s=300, shrink_cap=300),
+BUDGET = {'quick': dict(examples=3600, max_s=300, shrink_cap=300),
           'thorough': dict(examples=120000, max_s=2400, shrink_cap=600)}
 # interactive() is not told the tier by the runner
 THOROUGH = 'thorough' in sys.argv or \
